@@ -102,6 +102,8 @@ theorem parser_stops_lexer (c : Ctx) (hf : c.fixed = true) (consumed : Nat) :
   obtain ⟨toks, h⟩ := lexer_total c hf
   simp [lexerGoroutineExits, h, Gen.stopParseDrains]
 
+example : lexerGoroutineExits { inp := [0x61, 0x20, 0x62], cls := Cls.none } (Gen.stopParseDrains == some true) 1 = true := by decide
+
 /-- Counterexample (defect repaired by 10171bf): without the drain, a parser that stops after one token of
 `a b` leaves the lexer goroutine blocked in `emit` for ever. -/
 theorem oldParser_leaks_lexer :
@@ -117,6 +119,8 @@ theorem node_panic_becomes_error (b : Body) :
   cases b with
   | ret e => rfl
   | panics v => cases v <;> decide
+
+example : runDeferred Gen.nodeStart (.panics .runtimeErr) = .returns true := by decide
 
 /-- Counterexample (defect repaired by 42547c8): with `recover()` under `if err != nil` the panic of the
 run function is never recovered. -/
@@ -186,6 +190,8 @@ theorem udf_read_no_trap (bs : Bytes) : Frame.trap ∉ readAll true bs := readAl
 the last result is not a message. -/
 theorem udf_read_terminates (bs : Bytes) :
     ∃ pre t, readAll true bs = pre ++ [t] ∧ ∀ off, t ≠ .msg off := readAll_ends bs
+
+example : readAll true [0x02, 0x08, 0x01, 0x00, 0x05, 0x01] = [.msg 3, .msg 4, .ueof] := by decide
 
 /-- Counterexample (defect repaired by 8b0f657): a length prefix of 2^62 made `make([]byte, size)` panic. -/
 theorem oldUdfRead_traps :
